@@ -63,6 +63,9 @@ func (cr *CrashRun) classify(out *RecoverOutcome, allowed []Snapshot, pos int) [
 	for i, sn := range allowed {
 		n := 0
 		for _, tn := range cr.Tables {
+			if _, inSnap := sn[tn]; inSnap == out.Missing[tn] {
+				n += 1000
+			}
 			ms, ex := multisetDiff(sn[tn], out.Tables[tn])
 			n += len(ms) + len(ex)
 		}
@@ -85,8 +88,19 @@ func (cr *CrashRun) classify(out *RecoverOutcome, allowed []Snapshot, pos int) [
 			}
 		}
 	}
-	var c01, c02 []string
+	var c01, c02, c10 []string
 	for _, tn := range cr.Tables {
+		_, inSnap := sn[tn]
+		if out.Missing[tn] {
+			if inSnap {
+				c10 = append(c10, fmt.Sprintf("table %s, whose CREATE TABLE had returned before the crash, is not in the catalog after the restart", tn))
+			}
+			continue
+		}
+		if !inSnap {
+			c10 = append(c10, fmt.Sprintf("table %s is in the catalog after the restart although its CREATE TABLE was never acknowledged", tn))
+			continue
+		}
 		if _, ok := out.Tables[tn]; !ok {
 			c01 = append(c01, fmt.Sprintf("table %s unreadable after restart: %s", tn, out.ScanErr[tn]))
 			continue
@@ -120,6 +134,9 @@ func (cr *CrashRun) classify(out *RecoverOutcome, allowed []Snapshot, pos int) [
 	}
 	if len(c02) > 0 {
 		vs = append(vs, Violation{Property: "C02", Class: "uncommitted-effect-survives", Detail: trim(c02)})
+	}
+	if len(c10) > 0 {
+		vs = append(vs, Violation{Property: "C10", Class: "table-existence-after-crash", Detail: trim(c10)})
 	}
 	return vs
 }
@@ -215,6 +232,12 @@ func (cr *CrashRun) checkImage(im Image, pos int, faults []Fault, postWork bool)
 			break
 		}
 	}
+	if okAny && s != nil {
+		// catalog identity of the tables that exist (C10)
+		for _, cv := range catalogViolations(s, cr.presentSpecs(&out), "after crash restart") {
+			vs = append(vs, Violation{Property: "C10", Class: cv[0] + "-after-crash", Detail: cv[1], Faults: faults, Features: feat()})
+		}
+	}
 	if !okAny {
 		for _, v := range cr.classify(&out, allowed, pos) {
 			v.Faults = faults
@@ -234,12 +257,23 @@ func (cr *CrashRun) checkImage(im Image, pos int, faults []Fault, postWork bool)
 	return
 }
 
+// presentSpecs: specs of the tables that are in the recovered catalog, in a fixed order.
+func (cr *CrashRun) presentSpecs(out *RecoverOutcome) []*TableSpec {
+	var ps []*TableSpec
+	for _, tn := range cr.Tables {
+		if ts := cr.Specs[tn]; ts != nil && !out.Missing[tn] {
+			ps = append(ps, ts)
+		}
+	}
+	return ps
+}
+
 // postRecoveryWork: the recovered database must accept new statements. Builds a model from the
 // recovered rows and runs a fixed small workload against it.
 func (cr *CrashRun) postRecoveryWork(s *SUT, out *RecoverOutcome) string {
 	m := &Model{}
-	for i := range cr.Cfg.Tables {
-		ts := &cr.Cfg.Tables[i]
+	present := cr.presentSpecs(out)
+	for _, ts := range present {
 		t := m.AddTable(ts.Name, ts.Cols)
 		rows, _, res := s.ScanHeap(ts.Name)
 		if !res.OK() {
@@ -253,8 +287,7 @@ func (cr *CrashRun) postRecoveryWork(s *SUT, out *RecoverOutcome) string {
 	e := NewExec(s, m)
 	e.CheckSelects = true
 	n := 0
-	for i := range cr.Cfg.Tables {
-		ts := &cr.Cfg.Tables[i]
+	for i, ts := range present {
 		t := m.Table(ts.Name)
 		k := int32(1000000 + i)
 		row := []any{k, int32(7)}
@@ -400,6 +433,10 @@ func (cr *CrashRun) explore(o crashCheckOpts) {
 		if found() {
 			return
 		}
+		if overBudget() && i >= cr.SetupEnd {
+			cr.stat("exploration_truncated_by_budget", 1)
+			return
+		}
 		if i >= cr.SetupEnd && chosen[i] {
 			phase := phaseAt(evs, i)
 			// torn variants of this event: image before it + partial write
@@ -494,6 +531,10 @@ func (cr *CrashRun) exploreNested(im Image, pos int, faults []Fault, o crashChec
 	}
 	for _, i := range io {
 		ev := &revs[i]
+		if overBudget() {
+			cr.stat("nested_exploration_truncated_by_budget", 1)
+			return
+		}
 		// torn variant of the recovery's own write
 		if cr.Cfg.Torn && o.rnd.Chance(0.3) {
 			for _, t := range tornVariants(ev, o.rnd, false) {
@@ -536,6 +577,7 @@ func (cr *CrashRun) nestedCheck(im Image, pos int, faults []Fault, depth int) bo
 func (cr *CrashRun) checkIdempotence(im Image, pos int, faults []Fault) {
 	path := cr.Dir + "/r"
 	var first map[string][]string
+	var firstMissing map[string]bool
 	cur := im
 	for round := 0; round < 3; round++ {
 		s, out := recoverImage(cr.Dir, cur, cr.Cfg.Frames, cr.Tables, false)
@@ -549,8 +591,13 @@ func (cr *CrashRun) checkIdempotence(im Image, pos int, faults []Fault) {
 		}
 		if first == nil {
 			first = out.Tables
+			firstMissing = out.Missing
 		} else {
 			for _, tn := range cr.Tables {
+				if firstMissing[tn] != out.Missing[tn] {
+					cr.Viol = append(cr.Viol, Violation{Property: "C20", Class: "repeat-recovery-differs", Detail: fmt.Sprintf("round %d table %s: in catalog = %v, first round = %v", round, tn, !out.Missing[tn], !firstMissing[tn]), Faults: faults, Features: cr.featuresAt(pos, faults, &im)})
+					return
+				}
 				if !sameStrings(first[tn], out.Tables[tn]) {
 					cr.Viol = append(cr.Viol, Violation{Property: "C20", Class: "repeat-recovery-differs", Detail: fmt.Sprintf("round %d table %s: %s", round, tn, diffStrings(first[tn], out.Tables[tn])), Faults: faults, Features: cr.featuresAt(pos, faults, &im)})
 					return
